@@ -715,7 +715,7 @@ func (c *Ctx) pathLenRule(rule string) {
 // templatedArgsRule: `$n` sources are numbered from the source operand.
 func (c *Ctx) templatedArgsRule(rule string) {
 	r := c.R
-	r.Rule(rule, "templated `$n` sources: every call of resolveTemplatedExpr receives Src() of the mapper at hand and the list [<source node>] ++ <additional argument nodes> (`$1` is the source, `$k+1` the k-th additional argument, as documented); the node that becomes the assignment's right-hand side is the first result of castNode(<destination>.ExprType(), <resolved node>) and nil when the path did not resolve")
+	r.Rule(rule, "templated `$n` sources: every call of resolveTemplatedExpr receives Src() of the mapper at hand and the list [<root of the Parent() chain of the source node at hand>] ++ <additional argument nodes> (`$1` is the method's source operand – also inside a nested copy –, `$k+1` the k-th additional argument, as documented); the node that becomes the assignment's right-hand side is the first result of castNode(<destination>.ExprType(), <resolved node>) and nil when the path did not resolve")
 	name := "(*" + pBld + "assignmentBuilder).resolveTemplatedExpr"
 	n := 0
 	for _, s := range c.CallsTo(name) {
@@ -732,14 +732,26 @@ func (c *Ctx) templatedArgsRule(rule string) {
 			first := c.varargAt(ap.Call.Args[0], 0)
 			second := c.varargAt(ap.Call.Args[0], 1)
 			rest := c.O.Of(ap.Call.Args[1])
-			isSrc := first != nil && (first.Kind == "fv" || first.Kind == "param") && (first.Name == "rhs" || strings.Contains(strings.ToLower(first.Name), "src"))
+			// the source operand of the method: the root of the chain of containers of the node at hand (in a nested copy the
+			// node at hand is the nested source, and `$1.X` must not be resolved against it)
+			isSrc := false
+			if first != nil && first.Kind == "phi" {
+				start := first.Contains(func(x *core.Term) bool {
+					return (x.Kind == "fv" || x.Kind == "param") && (x.Name == "rhs" || strings.Contains(strings.ToLower(x.Name), "src"))
+				})
+				climbs := first.Contains(func(x *core.Term) bool { return x.Kind == "invoke" && x.Name == invParent })
+				atRoot := c.ReachOf(s.Instr).Implies(c.M(true, isNilCmp(func(x *core.Term) bool {
+					return x.Kind == "invoke" && x.Name == invParent && x.Args[0].Kind == "phi"
+				})))
+				isSrc = start && climbs && atRoot
+			}
 			isExtra := (rest.Kind == "fv" || rest.Kind == "param") && strings.Contains(strings.ToLower(rest.Name), "arg")
 			okList = isSrc && second == nil && isExtra
 			if first != nil {
 				why = "[" + first.String() + "] ++ " + rest.String()
 			}
 		}
-		r.Check(rule, key+":argument-list", c.Pos(s.Pos()), okList, "the `$n` list must be [source] ++ additional arguments, got "+why)
+		r.Check(rule, key+":argument-list", c.Pos(s.Pos()), okList, "the `$n` list must be [<root of the source chain: the method's source operand>] ++ additional arguments (with the node at hand as first element, `:map $1.X In.V` copies src.In.X instead of src.X when the struct In is copied member by member), got "+why)
 		// the closure answers castNode(lhs.ExprType(), resolved)[0] / nil
 		okRet := true
 		nr := 0
